@@ -132,6 +132,15 @@ def r03_6_rounding_helpers_exact(ctx: Ctx) -> RuleResult:
                 sites += 1
                 v = M.fold(c.args[1], g.cls, g.mod)
                 ok = (isinstance(v, int) and v > 0) or (unparse(c.args[1]).endswith("__units_per_day") and tpf_positive)
+                if not ok and isinstance(c.args[1], ast.Name) and g.parent is not None and c.args[1].id in {p_.arg for p_ in g.value_params}:
+                    # the divisor is a parameter of a local helper: every call of the helper in the enclosing function decides
+                    idx = [p_.arg for p_ in g.value_params].index(c.args[1].id)
+                    calls = [x for x in own_nodes(g.parent.node) if isinstance(x, ast.Call) and isinstance(x.func, ast.Name) and x.func.id == g.name]
+                    vals = []
+                    for x in calls:
+                        a = x.args[idx] if idx < len(x.args) else next((k.value for k in x.keywords if k.arg == c.args[1].id), None)
+                        vals.append(M.fold(a, g.parent.cls, g.parent.mod) if a is not None else None)
+                    ok = bool(calls) and all(isinstance(w, int) and w > 0 for w in vals)
                 if not ok:
                     badsite = badsite or (g, c)
     rr.inst()
